@@ -44,7 +44,7 @@ INDEX_KINDS = ("1d:int", "1d:unsorted", "1d:str", "1d:datetime")
 def required(tier):
     cells = [f"cls:{c}" for c in cc.CLASSES] + [f"z:{z}" for z in ZKINDS] + [f"container:{k}" for k in cc.CONTAINERS]
     cells += [f"layout:{k}" for k in cc.LAYOUTS] + ["normalized:True", "normalized:False", "splits:exhaustive", "splits:random"]
-    cells += [f"subset:{k}" for k in ("single", "sorted", "unsorted", "repeated", "grid")]
+    cells += [f"subset:{k}" for k in ("single", "sorted", "unsorted", "repeated", "grid")] + ["empty_element+repeated_labels"]
     return {"mon": ["value_comparisons", "finite_checks", "split_comparisons", "subset_comparisons"], "cover": cells}
 
 
@@ -83,6 +83,15 @@ def cases(tier, seed):
             cfg = cfgs[(zi * 7 + ci * 3 + 3) % len(cfgs)]
             out.append(draw(cfg, zkind, gen.rng_for(5005, i), i))
             i += 1
+    # dedicated: a list whose first DataArray is missing throughout x repeated sample labels (found by the thorough tier)
+    for j, cell in enumerate(("EOF", "MCA|pca=0")):
+        cfg = next(c for c in cc.CONFIGS if c["cell"] == cell)
+        case = draw(cfg, "repeated", gen.rng_for(5005, 9000 + j), 4 + 5 * j)  # i % 5 == 4 -> first container is a list
+        f0 = case["fields"][0]
+        assert f0["kind"] == "list"
+        f0["nan_cols"], f0["nf_nan"] = list(range(f0["q"])), f0["q"]
+        case["nan"] = "f"
+        out.append(case)
     nrand = 100 if tier == "quick" else 5000
     pz = np.array([1.0 if z not in ("2d_nan_s", "mi_nan_s") + REFUSAL_OK else 0.4 for z in ZKINDS])
     pz = pz / pz.sum()
@@ -196,6 +205,18 @@ def run_case(case, obs):
     kw = {} if fitted.kind == "multi" else {"normalized": case["normalized"]}
     rng = gen.rng_for(case["zseed"], 11)
     stacked_tr = case["layout"] in cc.STACKED
+    empty = cc.empty_element(case)
+
+    def etags(nan_samples, stacked, key_list):
+        """Facts delimiting exception mechanisms (only the two common ones are always present)."""
+        t = {"nan_samples": bool(nan_samples), "stacked_samples": bool(stacked)}
+        if len(set(key_list)) < len(key_list):
+            t["repeated_labels"] = True
+            if empty:
+                obs.cell("empty_element+repeated_labels")
+        if empty:
+            t["empty_element"] = True
+        return t
 
     # ---- reference: the model's own scores laid out on the training rows ------------------------------
     S = cc.guarded(obs, "scores", lambda: fitted.scores(**kw), tags={"op": "scores"})
@@ -220,7 +241,7 @@ def run_case(case, obs):
         obs.cell(f"subset:{kind}")
         sub = [cc.isel_field(f, dict(zip(sdims, idx))) for f in tr["fields"]]
         sub_keys = [keys[r] for r in rows]
-        tags = {"nan_samples": bool((~valid[rows]).any()), "stacked_samples": stacked_tr}
+        tags = etags((~valid[rows]).any(), stacked_tr, sub_keys)
         ctx = {"what": "subset", "subset": kind, "n": len(rows)}
         T = call("transform(subset)", sub, tags, ctx)
         if T is None:
@@ -249,7 +270,7 @@ def run_case(case, obs):
     zvalid[nan_rows] = False
     Mz = cc.raw_matrices(case, m, rng, nan_rows)
     Z = [cc.make_field(M, zlay, f) for M, f in zip(Mz, case["fields"])]
-    ztags = {"nan_samples": bool(z_nan), "stacked_samples": bool(zlayout in cc.STACKED)}
+    ztags = etags(z_nan, zlayout in cc.STACKED, zk)
     ctx = {"what": "new data", "zkind": z, "n": m}
     obs.note("z", {"layout": zlayout, "sizes": list(zlay["sizes"]), "missing": nan_rows})
     if z in REFUSAL_OK:
@@ -300,7 +321,7 @@ def run_case(case, obs):
                 if not zvalid[rows].any():
                     continue
                 P = [cc.isel_field(f, {d: part}) for f in Z]
-                ptags = {"nan_samples": bool((~zvalid[rows]).any()), "stacked_samples": ztags["stacked_samples"]}
+                ptags = etags((~zvalid[rows]).any(), ztags["stacked_samples"], [zk[r] for r in rows])
                 pctx = dict(ctx, what="part", split_dim=d, split_at=sp, part_n=len(rows))
                 TP = call("transform(part)", P, ptags, pctx)
                 if TP is None:
